@@ -405,3 +405,7 @@ func vh_C19_L3_t3_runs_while_data_in_flight() { vh_C02_L7_t3_runs_while_data_in_
 
 // C19.L3e: handshake retries stay bounded-and-alive when stale handshake chunks arrive (= C04.L2b).
 func vh_C19_L3_stale_cookie_echo_keeps_retries() { vh_C04_L2_stale_cookie_echo_keeps_retries() }
+
+// C19.L3f: T3 puts the earliest outstanding chunk on the wire again whatever the peer's
+// window (zero, or open but smaller than the chunk) (= C06.L2).
+func vh_C19_L3_t3_retransmits_into_any_window() { vh_C06_L2_abandoned_never_resent() }
